@@ -57,14 +57,11 @@ func (r *Replayer) allEntries() map[string][]string {
 	files, _ := filepath.Glob(filepath.Join(r.root, "harness", "C*.json"))
 	seen := map[string]bool{}
 	for _, f := range files {
-		b, err := os.ReadFile(f)
+		psp, err := LoadSpec(f)
 		if err != nil {
 			continue
 		}
-		var ps PropertySpec
-		if json.Unmarshal(b, &ps) != nil {
-			continue
-		}
+		ps := *psp
 		for _, e := range ps.Entries {
 			sub := pkgSub[e.Pkg]
 			if sub == "" || seen[sub+"/"+e.Name] {
